@@ -1539,7 +1539,11 @@ theorem stinv_step {s : Store} (h : StInv s.props) (op : SOp)
     (hop : op.valOk) : StInv (s.step op).props := by
   cases op with
   | node => exact h
-  | set n key v => exact stinv_set h n key hop
+  | set n key v =>
+    simp only [Store.step, Store.setProp]
+    split
+    · exact stinv_set h n key hop
+    · exact h
   | remove n key => exact stinv_remove h n key
   | delnode n =>
     simp only [Store.step, Store.deleteNode]
@@ -1770,23 +1774,13 @@ structure IInv (s : Store) : Prop where
   exact : ∀ key r, aget s.idx key = some r → ∀ v n, (v, n) ∈ r ↔ s.props.get n key = some v
   fresh : ∀ n ∈ s.live, n < s.next
 
-/-- writes go to live nodes (the store itself does not check this) -/
-def wfOp (s : Store) : SOp → Prop
-  | .set n _ _ => n ∈ s.live
-  | _ => True
+/-- `set_node_property` before 9bbd0dc: the write happened whether or not the id was a live node
+(kept for the regression theorems `c10_reg_*`) -/
+def Old.setProp (s : Store) (n key : Nat) (v : V) : Store :=
+  { s with idx := s.idxOnSet n key v, props := s.props.set n key v }
 
-def wfRun : Store → List SOp → Prop
-  | _, [] => True
-  | s, op :: rest => wfOp s op ∧ wfRun (s.step op) rest
-
-instance decWfOp (s : Store) (op : SOp) : Decidable (wfOp s op) := by
-  cases op <;> simp only [wfOp] <;> exact inferInstance
-
-instance decWfRun : ∀ (s : Store) (ops : List SOp), Decidable (wfRun s ops)
-  | _, [] => isTrue trivial
-  | s, op :: rest => by
-    simp only [wfRun]
-    exact @instDecidableAnd _ _ (decWfOp s op) (decWfRun (s.step op) rest)
+theorem setProp_eq (s : Store) (n key : Nat) (v : V) :
+    s.setProp n key v = if n ∈ s.live then Old.setProp s n key v else s := rfl
 
 theorem mem_dropOld_exact {r : Rel} {n : Nat} {old : Option V}
     (hr : ∀ w, (w, n) ∈ r ↔ old = some w) (w : V) (m : Nat) :
@@ -1814,11 +1808,11 @@ theorem mem_dropOld_exact {r : Rel} {n : Nat} {old : Option V}
       intro e
       exact h2 (Prod.mk.inj e).2
 
-theorem iinv_set {s : Store} (h : IInv s) (n key : Nat) (v : V) (hl : n ∈ s.live) :
-    IInv (s.setProp n key v) where
+theorem iinv_set_live {s : Store} (h : IInv s) (n key : Nat) (v : V) (hl : n ∈ s.live) :
+    IInv (Old.setProp s n key v) where
   onlyLive := by
     intro m k x hx
-    simp only [Store.setProp, get_set] at hx
+    simp only [Old.setProp, get_set] at hx
     by_cases e : key = k
     · by_cases e2 : n = m
       · subst e2; exact hl
@@ -1829,8 +1823,8 @@ theorem iinv_set {s : Store} (h : IInv s) (n key : Nat) (v : V) (hl : n ∈ s.li
   fresh := h.fresh
   exact := by
     intro k r hr w m
-    simp only [Store.setProp, get_set]
-    simp only [Store.setProp, Store.idxOnSet] at hr
+    simp only [Old.setProp, get_set]
+    simp only [Old.setProp, Store.idxOnSet] at hr
     cases hk : aget s.idx key with
     | none =>
       rw [hk] at hr
@@ -1861,6 +1855,14 @@ theorem iinv_set {s : Store} (h : IInv s) (n key : Nat) (v : V) (hl : n ∈ s.li
           · intro h1; exact Or.inr ⟨h1, fun e => e2 e.symm⟩
       · simp only [e, if_false] at hr ⊢
         exact h.exact k r hr w m
+
+/-- a write to an id that is not a live node is a no-op (9bbd0dc), so every write keeps the
+invariant -/
+theorem iinv_set {s : Store} (h : IInv s) (n key : Nat) (v : V) : IInv (s.setProp n key v) := by
+  rw [setProp_eq]
+  split
+  · rename_i hl; exact iinv_set_live h n key v hl
+  · exact h
 
 theorem iinv_remove {s : Store} (h : IInv s) (n key : Nat) : IInv (s.removeProp n key) where
   onlyLive := by
@@ -1969,7 +1971,7 @@ theorem iinv_dropIndex {s : Store} (h : IInv s) (key : Nat) : IInv (s.dropIndex 
     · cases hr
     · exact h.exact k r hr w m
 
-theorem iinv_step {s : Store} (h : IInv s) (op : SOp) (hw : wfOp s op) : IInv (s.step op) := by
+theorem iinv_step {s : Store} (h : IInv s) (op : SOp) : IInv (s.step op) := by
   cases op with
   | node =>
     exact {
@@ -1981,7 +1983,7 @@ theorem iinv_step {s : Store} (h : IInv s) (op : SOp) (hw : wfOp s op) : IInv (s
         rcases hn with rfl | hn
         · omega
         · have := h.fresh n hn; omega }
-  | set n key v => exact iinv_set h n key v hw
+  | set n key v => exact iinv_set h n key v
   | remove n key => exact iinv_remove h n key
   | delnode n => exact iinv_delete h n
   | rebuild ords =>
@@ -1998,13 +2000,13 @@ theorem iinv_step {s : Store} (h : IInv s) (op : SOp) (hw : wfOp s op) : IInv (s
   | index key => exact iinv_createIndex h key
   | dropindex key => exact iinv_dropIndex h key
 
-theorem iinv_foldl : ∀ (ops : List SOp) (s : Store), IInv s → wfRun s ops → IInv (ops.foldl Store.step s)
-  | [], _, h, _ => h
-  | op :: rest, s, h, hw => iinv_foldl rest (s.step op) (iinv_step h op hw.1) hw.2
+theorem iinv_foldl : ∀ (ops : List SOp) (s : Store), IInv s → IInv (ops.foldl Store.step s)
+  | [], _, h => h
+  | op :: rest, s, h => iinv_foldl rest (s.step op) (iinv_step h op)
 
-theorem iinv_run (ops : List SOp) (hw : wfRun {} ops) : IInv (Store.run ops) :=
+theorem iinv_run (ops : List SOp) : IInv (Store.run ops) :=
   iinv_foldl ops {} ⟨by intro n k x hx; simp [Storage.get, aget] at hx,
-    by intro k r hr; simp [aget] at hr, by intro n hn; simp at hn⟩ hw
+    by intro k r hr; simp [aget] at hr, by intro n hn; simp at hn⟩
 
 theorem mem_scanFind (s : Store) (key : Nat) (v : V) (n : Nat) :
     n ∈ s.scanFind key v ↔ n ∈ s.live ∧ ∃ x, s.props.get n key = some x ∧ valEq x v = true := by
@@ -2014,10 +2016,10 @@ theorem mem_scanFind (s : Store) (key : Nat) (v : V) (n : Nat) :
 
 /-- what the indexed lookup returns in a reachable store: the nodes whose current value is
 identical to `v` (bitwise for floats) -/
-theorem mem_find_indexed (ops : List SOp) (hw : wfRun {} ops) (key : Nat) (v : V) (n : Nat)
+theorem mem_find_indexed (ops : List SOp) (key : Nat) (v : V) (n : Nat)
     (hi : (Store.run ops).hasIndex key = true) :
     n ∈ (Store.run ops).find key v ↔ (Store.run ops).props.get n key = some v := by
-  have hinv := iinv_run ops hw
+  have hinv := iinv_run ops
   unfold Store.find
   unfold Store.hasIndex at hi
   cases hk : aget (Store.run ops).idx key with
@@ -2031,11 +2033,11 @@ and drop at any points, overwrites, removes, node deletions, rebuilds — `find_
 returns, as a set, exactly what the scan returns, provided the two equalities in play
 (`HashableValue` = bit identity in the index, `Value ==` = IEEE `==` in the scan) agree on the
 column for the looked-up value. They disagree only for NaN and ±0.0 (`valEq_iff_eq`). -/
-theorem c10_index_eq_scan_partial (ops : List SOp) (hw : wfRun {} ops) (key : Nat) (v : V)
+theorem c10_index_eq_scan_partial (ops : List SOp) (key : Nat) (v : V)
     (hagree : ∀ n x, (Store.run ops).props.get n key = some x → (valEq x v = true ↔ x = v)) :
     ∀ n, n ∈ (Store.run ops).find key v ↔ n ∈ (Store.run ops).scanFind key v := by
   intro n
-  have hinv := iinv_run ops hw
+  have hinv := iinv_run ops
   rw [mem_scanFind]
   cases hi : (Store.run ops).hasIndex key with
   | false =>
@@ -2045,7 +2047,7 @@ theorem c10_index_eq_scan_partial (ops : List SOp) (hw : wfRun {} ops) (key : Na
     | some r => simp [hk] at hi
     | none => simp only; rw [mem_scanFind]
   | true =>
-    rw [mem_find_indexed ops hw key v n hi]
+    rw [mem_find_indexed ops key v n hi]
     constructor
     · intro hx
       exact ⟨hinv.onlyLive n key v hx, v, hx, (hagree n v hx).mpr rfl⟩
@@ -2053,18 +2055,10 @@ theorem c10_index_eq_scan_partial (ops : List SOp) (hw : wfRun {} ops) (key : Na
       rw [(hagree n x hx).mp he] at hx; exact hx
 
 /-- creating or dropping the index never changes the answer (same hypotheses) -/
-theorem c10_index_toggle_invariant (ops : List SOp) (hw : wfRun {} ops) (key : Nat) (v : V)
+theorem c10_index_toggle_invariant (ops : List SOp) (key : Nat) (v : V)
     (hagree : ∀ n x, (Store.run ops).props.get n key = some x → (valEq x v = true ↔ x = v)) (n : Nat) :
     (n ∈ (Store.run (ops ++ [.index key])).find key v ↔ n ∈ (Store.run ops).find key v) ∧
     (n ∈ (Store.run (ops ++ [.dropindex key])).find key v ↔ n ∈ (Store.run ops).find key v) := by
-  have wf1 : ∀ op, wfOp (Store.run ops) op → wfRun {} (ops ++ [op]) := by
-    intro op hop
-    have gen : ∀ (l : List SOp) (s : Store), wfRun s l → wfOp (l.foldl Store.step s) op → wfRun s (l ++ [op]) := by
-      intro l
-      induction l with
-      | nil => intro s _ h; exact ⟨h, trivial⟩
-      | cons o rest ih => intro s h1 h2; exact ⟨h1.1, ih (s.step o) h1.2 h2⟩
-    exact gen ops {} hw hop
   have e1 : ∀ op, Store.run (ops ++ [op]) = (Store.run ops).step op := by
     intro op; simp [Store.run, List.foldl_append]
   have g1 : ∀ op m k, (op = .index key ∨ op = .dropindex key) →
@@ -2082,10 +2076,9 @@ theorem c10_index_toggle_invariant (ops : List SOp) (hw : wfRun {} ops) (key : N
   have main : ∀ op, (op = .index key ∨ op = .dropindex key) →
       (n ∈ (Store.run (ops ++ [op])).find key v ↔ n ∈ (Store.run ops).find key v) := by
     intro op hop
-    have hwop : wfOp (Store.run ops) op := by rcases hop with rfl | rfl <;> trivial
-    rw [c10_index_eq_scan_partial (ops ++ [op]) (wf1 op hwop) key v
+    rw [c10_index_eq_scan_partial (ops ++ [op]) key v
         (by intro m x hx; rw [e1, g1 op m key hop] at hx; exact hagree m x hx) n,
-      c10_index_eq_scan_partial ops hw key v hagree n, mem_scanFind, mem_scanFind, e1, l1 op hop]
+      c10_index_eq_scan_partial ops key v hagree n, mem_scanFind, mem_scanFind, e1, l1 op hop]
     simp only [g1 op n key hop]
   exact ⟨main _ (Or.inl rfl), main _ (Or.inr rfl)⟩
 
@@ -2514,13 +2507,11 @@ variable (ops : List SOp) (hops : ∀ o ∈ ops, o.valOk) (key : Nat) (op : Op) 
 include hops wl
 
 /-- **(c)** For every history of well-formed values — index creation/drop, overwrites, removes,
-node deletions, rebuilds (any iteration order) anywhere — every comparison operator and every
-literal: every path the planner may take (zone-map prune, index lookup, range lookup, generic
-filter) yields, as a set, the generic filter's answer. The index path alone needs the history to
-write properties to live nodes only (`wfRun`; the store itself does not check this, see
-`c10_w_plan_index_misses_live`). -/
-theorem c10_planner_paths_agree (p : Path) (hp : applicable (Store.run ops) key op lit p)
-    (hw : p = .index → wfRun {} ops) :
+node deletions, rebuilds (any iteration order), writes to ids that are not live nodes (no-ops
+since 9bbd0dc) anywhere — every comparison operator and every literal: every path the planner
+may take (zone-map prune, index lookup, range lookup, generic filter) yields, as a set, the
+generic filter's answer. -/
+theorem c10_planner_paths_agree (p : Path) (hp : applicable (Store.run ops) key op lit p) :
     ∀ n, n ∈ (Store.run ops).runPath key op lit p ↔ n ∈ (Store.run ops).genericPath key op lit := by
   intro n
   cases p with
@@ -2534,7 +2525,6 @@ theorem c10_planner_paths_agree (p : Path) (hp : applicable (Store.run ops) key 
   | index =>
     obtain ⟨hop, hks, hi⟩ := hp
     subst hop
-    have hwf := hw rfl
     obtain ⟨ks, hk⟩ : ∃ ks, lookupKeys lit = some ks := by
       cases h : lookupKeys lit with
       | none => simp [h] at hks
@@ -2550,7 +2540,7 @@ theorem c10_planner_paths_agree (p : Path) (hp : applicable (Store.run ops) key 
     · rintro ⟨hlv, x, hx, hf⟩
       have wx := current_value_wf ops hops hx
       have hmem : x ∈ ks := keys_cover wx wl hk (by simpa [fsat] using hf)
-      refine ⟨⟨x, hmem, (mem_find_indexed ops hwf key x n hi).mpr hx⟩, hlv, ?_⟩
+      refine ⟨⟨x, hmem, (mem_find_indexed ops key x n hi).mpr hx⟩, hlv, ?_⟩
       simp only [hx, holds]; exact hf
   | range =>
     simp only [applicable] at hp
@@ -2583,23 +2573,13 @@ theorem c10_planner_paths_agree (p : Path) (hp : applicable (Store.run ops) key 
 /-- **(c) PlannerPathIndependent.** The planner's answer is the generic filter's answer: a
 function of the live nodes and their current values only — not of the history, the zone-map
 state, the hash-map iteration order or the set of indexes. -/
-theorem c10_planner_path_independent (hw : wfRun {} ops) :
+theorem c10_planner_path_independent :
     ∀ n, n ∈ (Store.run ops).planFilter key op lit ↔
       (n ∈ (Store.run ops).live ∧ ∃ x, (Store.run ops).props.get n key = some x ∧ fsat op x lit = true) := by
   intro n
   unfold Store.planFilter
-  rw [c10_planner_paths_agree ops hops key op lit wl _ (choosePath_applicable _ key op lit)
-    (fun _ => hw) n, mem_genericPath]
-
-/-- the same without any hypothesis on where properties were written, as long as the planner does
-not take the index path (no index on the key, or a literal the index path does not serve) -/
-theorem c10_planner_path_independent_noindex
-    (hni : (Store.run ops).choosePath key op lit ≠ .index) :
-    ∀ n, n ∈ (Store.run ops).planFilter key op lit ↔ n ∈ (Store.run ops).genericPath key op lit := by
-  intro n
-  unfold Store.planFilter
-  exact c10_planner_paths_agree ops hops key op lit wl _ (choosePath_applicable _ key op lit)
-    (fun h => absurd h hni) n
+  rw [c10_planner_paths_agree ops hops key op lit wl _ (choosePath_applicable _ key op lit) n,
+    mem_genericPath]
 
 end Planner
 
@@ -2614,46 +2594,51 @@ def ZoneMapSoundFilter : Prop :=
 theorem c10_ZoneMapSoundFilter : ZoneMapSoundFilter :=
   fun ops hops key op v wv hf => c10_zone_map_sound_filter ops hops key op v wv hf
 
-/-- **(c)** the planner's answer is the generic filter's, for histories that write properties to
-live nodes -/
+/-- **(c)** the planner's answer is the generic filter's, for every history -/
 def PlannerPathIndependent : Prop :=
-  ∀ (ops : List SOp), (∀ o ∈ ops, o.valOk) → wfRun {} ops → ∀ (key : Nat) (op : Op) (lit : V), WF lit →
-    ∀ n, n ∈ (Store.run ops).planFilter key op lit ↔ n ∈ (Store.run ops).genericPath key op lit
-
-theorem c10_PlannerPathIndependent : PlannerPathIndependent := by
-  intro ops hops hw key op lit wl n
-  rw [c10_planner_path_independent ops hops key op lit wl hw n, mem_genericPath]
-
-/-- … and without that hypothesis it is false (residual; API level) -/
-def PlannerPathIndependentAnyWrites : Prop :=
   ∀ (ops : List SOp), (∀ o ∈ ops, o.valOk) → ∀ (key : Nat) (op : Op) (lit : V), WF lit →
     ∀ n, n ∈ (Store.run ops).planFilter key op lit ↔ n ∈ (Store.run ops).genericPath key op lit
 
-/-- W (residual of (c)): a property written to an id before the node exists, the index built in
-between: the index path misses the live node that the generic filter returns. -/
-theorem c10_w_plan_index_misses_live :
+theorem c10_PlannerPathIndependent : PlannerPathIndependent := by
+  intro ops hops key op lit wl n
+  rw [c10_planner_path_independent ops hops key op lit wl n, mem_genericPath]
+
+/-! ### regression: `set_node_property` before 9bbd0dc wrote to ids that are not live nodes -/
+
+/-- histories under the old `set_node_property` -/
+def Old.step (s : Store) : SOp → Store
+  | .set n key v => Old.setProp s n key v
+  | op => s.step op
+
+def Old.run (ops : List SOp) : Store := ops.foldl Old.step {}
+
+/-- R: index entry for an id that is not a live node. Old code: the indexed lookup returned id 5,
+the scan did not. Repaired code: the write is a no-op, both are empty. -/
+theorem c10_reg_index_nonlive :
+    let ops := [SOp.index 0, .set 5 0 (.int 1)]
+    ((Old.run ops).find 0 (.int 1) = [5] ∧ (Old.run ops).scanFind 0 (.int 1) = []) ∧
+    ((Store.run ops).find 0 (.int 1) = [] ∧ (Store.run ops).scanFind 0 (.int 1) = []) := by decide
+
+/-- R: the index misses a live node. Old code: a property written before the node existed was
+inherited by the node later created with that id, an index built in between did not list it.
+Repaired code: nothing was written. -/
+theorem c10_reg_index_misses_live :
+    let ops := [SOp.set 0 0 (.int 1), .index 0, .node]
+    ((Old.run ops).find 0 (.int 1) = [] ∧ (Old.run ops).scanFind 0 (.int 1) = [0]) ∧
+    ((Store.run ops).find 0 (.int 1) = [] ∧ (Store.run ops).scanFind 0 (.int 1) = []) := by decide
+
+/-- R: the same through the planner's index path. -/
+theorem c10_reg_plan_index_misses_live :
     let ops := [SOp.set 0 0 (.int 5), .index 0, .node]
-    (Store.run ops).choosePath 0 .eq (.int 5) = .index ∧
-    (Store.run ops).planFilter 0 .eq (.int 5) = [] ∧ (Store.run ops).genericPath 0 .eq (.int 5) = [0] := by
+    ((Old.run ops).choosePath 0 .eq (.int 5) = .index ∧
+      (Old.run ops).planFilter 0 .eq (.int 5) = [] ∧ (Old.run ops).genericPath 0 .eq (.int 5) = [0]) ∧
+    ((Store.run ops).planFilter 0 .eq (.int 5) = [] ∧ (Store.run ops).genericPath 0 .eq (.int 5) = []) := by
   decide +kernel
-
-theorem c10_planner_any_writes_refuted : ¬ PlannerPathIndependentAnyWrites := by
-  intro h
-  have := h [SOp.set 0 0 (.int 5), .index 0, .node]
-    (by intro o ho; simp only [List.mem_cons, List.not_mem_nil, or_false] at ho
-        rcases ho with rfl | rfl | rfl <;> simp [SOp.valOk, WF, I64]) 0 .eq (.int 5)
-    (by simp [WF, I64]) 0
-  revert this; decide +kernel
-
-theorem wfRun_append : ∀ (l : List SOp) (s : Store) (op : SOp), wfRun s l →
-    wfOp (l.foldl Store.step s) op → wfRun s (l ++ [op])
-  | [], _, _, _, h => ⟨h, trivial⟩
-  | o :: rest, s, op, h1, h2 => ⟨h1.1, wfRun_append rest (s.step o) op h1.2 h2⟩
 
 /-- **The iteration order of `rebuild_zone_map` never shows in an answer.** (It is random in the
 implementation — the hash maps are seeded per instance — and does change the recorded min/max of
 a column of mutually incomparable values; such a column is `mixed` and never pruned.) -/
-theorem c10_rebuild_order_irrelevant (ops : List SOp) (hops : ∀ o ∈ ops, o.valOk) (hw : wfRun {} ops)
+theorem c10_rebuild_order_irrelevant (ops : List SOp) (hops : ∀ o ∈ ops, o.valOk)
     (key : Nat) (op : Op) (lit : V) (wl : WF lit) (o1 o2 : List (Nat × List Nat)) (n : Nat) :
     n ∈ (Store.run (ops ++ [.rebuild o1])).planFilter key op lit ↔
       n ∈ (Store.run (ops ++ [.rebuild o2])).planFilter key op lit := by
@@ -2664,9 +2649,8 @@ theorem c10_rebuild_order_irrelevant (ops : List SOp) (hops : ∀ o ∈ ops, o.v
     rcases List.mem_append.mp hx with hx | hx
     · exact hops x hx
     · simp only [List.mem_cons, List.not_mem_nil, or_false] at hx; subst hx; trivial
-  have hwf : ∀ o, wfRun {} (ops ++ [SOp.rebuild o]) := fun o => wfRun_append ops {} _ hw trivial
-  rw [c10_planner_path_independent _ (hv o1) key op lit wl (hwf o1) n,
-    c10_planner_path_independent _ (hv o2) key op lit wl (hwf o2) n, e, e]
+  rw [c10_planner_path_independent _ (hv o1) key op lit wl n,
+    c10_planner_path_independent _ (hv o2) key op lit wl n, e, e]
   simp only [Store.rebuild, get_rebuild]
 
 /-- the zone map's order is still not transitive on all values (Int–Float–Int above 2^53); the
@@ -2712,8 +2696,7 @@ theorem c10_nv_planner :
     (Store.run [.node, .set 0 0 (.int 1), .index 0]).choosePath 0 .eq (.float f64_one) = .generic ∧
     (Store.run [.node, .set 0 0 (.int 1), .index 0]).planFilter 0 .eq (.float f64_one) = [0] ∧
     (Store.run [.node, .set 0 0 (.float f64_0p3)]).planFilter 0 .eq (.float f64_0p3next) = [0] ∧
-    (Store.run [.node, .set 0 0 (.float f64_one), .set 0 0 (.float f64_0p3), .rebuild []]).planFilter 0 .eq (.float f64_0p3next) = [0] ∧
-    wfRun {} [.node, .set 0 0 (.int 2), .index 0] := by
+    (Store.run [.node, .set 0 0 (.float f64_one), .set 0 0 (.float f64_0p3), .rebuild []]).planFilter 0 .eq (.float f64_0p3next) = [0] := by
   decide +kernel
 
 end Grafeo.ZoneMap
